@@ -68,6 +68,60 @@ def search(ck, tier, seed):
                     elif ierr > (5e-2 if e["umnn"] else 5e-4) * kin * kappa:
                         ck.finding("precision:float32-disagrees-with-float64:%s" % e["name"],
                                    "%s inverse: relative error %.3g" % (e["name"], ierr), case)
+    # the linear family at larger widths: every parameter in a bounded box (also one-sided boxes for the diagonal
+    # parameters, which make |det| very small or large while each entry stays moderate), cache on and off, both orders
+    from nflows.transforms import lu, qr, svd, linear as lin, conv
+    makers = [("LULinear", lambda f: lu.LULinear(f, identity_init=False), lambda f: [f]),
+              ("QRLinear", lambda f: qr.QRLinear(f, num_householder=4), lambda f: [f]),
+              ("SVDLinear", lambda f: svd.SVDLinear(f, num_householder=4, identity_init=False), lambda f: [f]),
+              ("NaiveLinear", lambda f: lin.NaiveLinear(f), lambda f: [f]),
+              ("OneByOneConvolution", lambda f: conv.OneByOneConvolution(f, identity_init=False), lambda f: [f, 2, 2])]
+    for name, mk, shp in makers:
+        for feats in ((3, 24) if tier == "quick" else (3, 12, 24, 48)) + (48,):
+            for box in ((-1.0, 1.0), (-3.0, -2.5), (2.5, 3.0)):
+                if name == "NaiveLinear" and box != (-1.0, 1.0):
+                    continue
+                g = tgen(seed, "c19lin", name, feats, box)
+                t32 = mk(feats)
+                with torch.no_grad():
+                    for pn, prm in t32.named_parameters():
+                        if "diag" in pn:
+                            prm.copy_(box[0] + (box[1] - box[0]) * torch.rand(prm.shape, generator=g))
+                        elif "bias" in pn:
+                            prm.copy_(torch.randn(prm.shape, generator=g) * 0.3)
+                        elif name == "NaiveLinear":
+                            prm.add_(torch.randn(prm.shape, generator=g) * 0.05)
+                        else:
+                            prm.copy_((torch.rand(prm.shape, generator=g) * 2 - 1) * (0.3 / math.sqrt(feats) if "entries" in pn else 1.0))
+                t32 = t32.float().eval()
+                t64 = copy.deepcopy(t32).double().eval()
+                x32 = torch.randn([4] + shp(feats), generator=g)
+                for cache in (False, True):
+                    for order in (("forward", "inverse"), ("inverse", "forward")):
+                        for t in (t32, t64):
+                            t.use_cache(cache)
+                            t.cache.invalidate()
+                        ck.case(("c19-linear", name, feats, box, cache, order), nontrivial=True)
+                        case = {"search": "linear-width", "class": name, "features": feats, "diag_box": box, "cache": cache, "order": order, "seed": seed}
+                        for direction in order:
+                            with torch.no_grad():
+                                a = attempt(getattr(t32, direction), x32)
+                                b = attempt(getattr(t64, direction), x32.double())
+                            if b[0] != "ok" or not bool(torch.isfinite(b[1][1]).all()):
+                                continue
+                            if a[0] != "ok":
+                                ck.finding("precision:float32-raises:%s" % name, "%s(%d) %s: %s %s" % (name, feats, direction, a[1], a[2]), case)
+                                continue
+                            (y32, l32), (y64, l64) = a[1], b[1]
+                            if not (bool(torch.isfinite(y32).all()) and bool(torch.isfinite(l32).all())):
+                                ck.finding("precision:float32-non-finite:%s" % name,
+                                           "%s(%d) %s, cache %s, diagonal parameters in %s: float32 log-abs-det %s, float64 %s" % (
+                                               name, feats, direction, cache, box, l32[:2].tolist(), l64[:2].tolist()), case)
+                                continue
+                            lerr = float((l32.double() - l64).abs().max()) / (1 + float(l64.abs().max()))
+                            if lerr > 1e-4:
+                                ck.finding("precision:float32-disagrees-with-float64:%s" % name,
+                                           "%s(%d) %s, cache %s: relative log-abs-det error %.3g" % (name, feats, direction, cache, lerr), case)
     # the spline functions in float32 on knots and end points, moderate parameters
     for fam in sh.FAMILIES:
         for K in (2, 5):
